@@ -57,8 +57,13 @@ def run(chk, binary):
         text = gen_text(rng)
         pat = rng.choice(PATTERNS)
         flag = rng.choice(["-g", "-g", "-v"])
-        variant = rng.choice(["mark", "cut", "else"])
-        if variant == "mark":
+        variant = rng.choice(["mark", "cut", "else", "tally", "top"])
+        if variant == "tally":
+            # the scope also edits the first line each time: the lines still to be visited move
+            argv = [flag, pat, "-m", "I#<esc>", "-m", "ggA|<esc>", "--end"]
+        elif variant == "top":
+            argv = [flag, pat, "-m", "I#<esc>", "-m", "ggOnew<esc>", "--end"]
+        elif variant == "mark":
             argv = [flag, pat, "-m", "I#<esc>", "--end"]
         elif variant == "cut":
             argv = ["--json", flag, pat, "-c", "v", "-n", "--end"]      # the character under the cursor
@@ -67,7 +72,7 @@ def run(chk, binary):
         jobs.append({"args": argv, "stdin": text})
         meta.append((text, pat, flag, variant, argv))
     res = cli_map(binary, jobs)
-    dist = {"mark": 0, "cut": 0, "else": 0, "final_newline": 0, "empty_lines": 0, "multibyte": 0, "else_taken": 0}
+    dist = {"mark": 0, "cut": 0, "else": 0, "tally": 0, "top": 0, "final_newline": 0, "empty_lines": 0, "multibyte": 0, "else_taken": 0}
     mcases = []
     mmeta = []
     for (text, pat, flag, variant, argv), (rc, out, err) in zip(meta, res):
@@ -90,7 +95,7 @@ def run(chk, binary):
             chk.violation("spec:run failed", dict(case, stderr=err.decode(errors="replace")[-300:]))
             continue
         sout = out.decode("utf-8", errors="replace")
-        if variant in ("mark", "else"):
+        if variant in ("mark", "else", "tally", "top"):
             # every visited line gets '#' before its first non-blank character, no other line changes
             exp_lines = []
             for i, l in enumerate(lines):
@@ -99,6 +104,10 @@ def run(chk, binary):
                     exp_lines.append(l[:k] + "#" + l[k:])
                 else:
                     exp_lines.append(l)
+            if variant == "tally" and want:
+                exp_lines[0] += "|" * len(want)
+            if variant == "top":
+                exp_lines = ["new"] * len(want) + exp_lines
             exp = "\n".join(exp_lines) + ("\n" if text.endswith("\n") else "")
             if variant == "else" and not want:
                 dist["else_taken"] += 1
@@ -107,7 +116,12 @@ def run(chk, binary):
                 exp = lines[0][:k] + "!" + lines[0][k:] + text[len(lines[0]):]
             if text == "":
                 continue        # an empty buffer has no line to mark; left to C10
-            if sout != exp + "\n":
+            if sout != exp + "\n" and variant == "top" and len(want) >= 2:
+                # lines are visited by number, last first: a scope that adds or removes lines above the visited one
+                # renumbers the lines still to be visited (Vim's :g marks the lines instead)
+                chk.known("scope-changes-line-count-above", "a -g/-v scope whose commands insert or delete lines above the visited line makes later visits land on the wrong lines: "
+                          "-g foo -m 'I#<esc>' -m 'ggOnew<esc>' --end on 'foo\\nbar\\nfoo\\n' marks 'new' instead of the first foo")
+            elif sout != exp + "\n":
                 chk.violation("spec:-g/-v did not run on exactly the expected lines" if not (variant == "else" and not want) else "spec:--else branch did not run exactly once on an empty set",
                               dict(case, expected_stdout=exp + "\n"))
         else:
@@ -165,7 +179,8 @@ def run(chk, binary):
                        "(mark every visited line with I#<esc>; cut '$' per visited line with --json; --else marking); reference = Python re.search per line of the text split on newlines; "
                        "the Coq model's scan (visited lines, last first, and their starts) is evaluated on the real segmentation and compared. non-trivial = at least two lines")
     chk.assumptions += ["regex matching is an oracle (Python re on the shared subset); CRLF texts are not generated here (a \\r\\n cluster is not a line break for the editor: class CRLF of C09)"]
-    return chk.finish()
+    known_lines = [f"KNOWN-FINDING: property=C13 class={k} {v}" for k, v in sorted(chk.known_hits.items())]
+    return chk.finish(known_lines)
 
 
 def replay(path):
